@@ -77,7 +77,8 @@ pub fn gen_log(n: usize) -> (Vec<u8>, Vec<LogMsg>) {
             ctid,
             mcnt: i as u8,
             session_id: 0,
-            timestamp: 100_000 + i as u32 * 10_000,
+            // ECU2 has been up 40 s longer than ECU1: the two lifecycles start at clearly different times
+            timestamp: if i % 3 == 2 { 500_000 } else { 100_000 } + i as u32 * 10_000,
             secs: 1_650_000_000 + i as u32,
             micros: 1000 * i as u32,
             verb_mstp_mtin: 0x41,
@@ -712,17 +713,27 @@ impl Prop for C15 {
         // search 0 starts at the initial state; further searches start from prepared non-initial states
         // (streams in different modes with messages already consumed), sharing the seen-set
         let by = |names: &[&str]| -> Vec<Sym> { names.iter().map(|n| sigma.iter().find(|s| &s.name() == n).unwrap_or_else(|| panic!("symbol {n}")).clone()).collect() };
-        let seeds: Vec<(Vec<Sym>, usize)> = vec![
-            (vec![], max_depth),
-            (by(&["open_onepass", "stream_onepass", "resume", "T3"]), ctx.tier.pick(2, 4)),
-            (by(&["open_onepass", "stream_onepass_filters", "resume", "T3"]), ctx.tier.pick(2, 3)),
-            (by(&["open_ok", "stream_filters", "T3", "query_filters"]), ctx.tier.pick(2, 3)),
-            (by(&["open_sorted", "stream_window_bin", "T3", "chgwin_last"]), ctx.tier.pick(2, 3)),
-            (by(&["open_ok", "pause", "stream_default", "T3", "resume"]), ctx.tier.pick(2, 3)),
+        // (start history, depth, alphabet of the search). The searches over the full alphabet share one seen-set; the
+        // "flow" searches go deeper over the session-flow commands only (pause/resume/stream/stop/ticks) and keep their own
+        // seen-set, so that states already met at a shallower depth are expanded again
+        let full = sigma.clone();
+        let sub = |names: &[&str]| -> Option<Arc<Vec<Sym>>> { Some(Arc::new(names.iter().map(|n| sigma.iter().find(|s| &s.name() == n).unwrap_or_else(|| panic!("symbol {n}")).clone()).collect())) };
+        let flow_depth = ctx.tier.pick(4, 6);
+        let seeds: Vec<(Vec<Sym>, usize, Option<Arc<Vec<Sym>>>)> = vec![
+            (vec![], max_depth, None),
+            (by(&["open_onepass", "stream_onepass", "resume", "T3"]), ctx.tier.pick(2, 4), None),
+            (by(&["open_onepass", "stream_onepass_filters", "resume", "T3"]), ctx.tier.pick(2, 3), None),
+            (by(&["open_ok", "stream_filters", "T3", "query_filters"]), ctx.tier.pick(2, 3), None),
+            (by(&["open_sorted", "stream_window_bin", "T3", "chgwin_last"]), ctx.tier.pick(2, 3), None),
+            (by(&["open_ok", "pause", "stream_default", "T3", "resume"]), ctx.tier.pick(2, 3), None),
             // two live streams: commands addressing the older one (ids are no longer in creation order after a window change)
-            (by(&["open_ok", "stream_window_bin", "stream_filters", "T3"]), ctx.tier.pick(2, 3)),
+            (by(&["open_ok", "stream_window_bin", "stream_filters", "T3"]), ctx.tier.pick(2, 3), None),
+            (by(&["open_onepass", "stream_onepass", "resume", "T3"]), flow_depth, sub(&["pause", "resume", "stream_onepass", "stream_onepass_filters", "query_window", "stop_last", "close", "T1", "T3", "Tinf"])),
+            (by(&["open_ok", "stream_default", "T3"]), flow_depth - 1, sub(&["pause", "resume", "stream_default", "stream_filters", "query_window", "stop_last", "chgwin_last", "T1", "T3", "Tinf"])),
         ];
-        'seeds: for (seed_no, (seed, seed_depth)) in seeds.iter().enumerate() {
+        'seeds: for (seed_no, (seed, seed_depth, sub_sigma)) in seeds.iter().enumerate() {
+        let sigma = sub_sigma.clone().unwrap_or_else(|| full.clone());
+        let mut flow_seen: HashSet<String> = HashSet::new();
         let mut frontier: Vec<Vec<Sym>> = vec![seed.clone()];
         for depth in 1..=*seed_depth {
             ctx.begin_family("bfs", &format!("start={} depth={depth} frontier={} alphabet={}", if seed_no == 0 { "initial".to_string() } else { format!("{:?}", seed.iter().map(|s| s.name()).collect::<Vec<_>>()) }, frontier.len(), sigma.len()));
@@ -829,17 +840,19 @@ impl Prop for C15 {
                         for (clause, disc, detail) in o.violations {
                             ctx.violation(&clause, &disc, || hist_json(&h), detail);
                         }
-                        if seen.insert(o.fingerprint.clone()) {
+                        let globally_new = seen.insert(o.fingerprint.clone());
+                        if globally_new {
                             total_states += 1;
                             ctx.outcome(fnv_str(&o.fingerprint));
                             ctx.sum.evaluations += 1;
                             ctx.sum.states += 1;
                             ctx.sum.nontrivial += 1;
                             ctx.sample(|| hist_json(&h));
-                            // states reached through a violating step are reported, not expanded
-                            if !had_viol {
-                                next.push(h);
-                            }
+                        }
+                        let expand = if sub_sigma.is_some() { flow_seen.insert(o.fingerprint.clone()) } else { globally_new };
+                        // states reached through a violating step are reported, not expanded
+                        if expand && !had_viol {
+                            next.push(h);
                         }
                     }
                 }
